@@ -475,7 +475,7 @@ def answer (line : String) : String :=
           | some j1, some j2 => withDate a j1 fun d1 => withDate b j2 fun d2 =>
               let x := histFinal d1 ops1
               let y := histFinal d2 ops2
-              s!"{showOrd (x.cmp y)} {b01 (x.beq y)} {b01 (x.hashKey == y.hashKey)} {b01 (showDate x == showDate y)}"
+              s!"{showOrd (x.cmp y)} {b01 (x.beq y)} {b01 (x.hashKey == y.hashKey)} {b01 (showDate x == showDate y)} {x.jdn} {calTok x.calendar} {y.jdn} {calTok y.calendar}"
           | _, _ => "BADREQ"
       | _ => "BADREQ"
   | ["chrono_from", y, m, d] =>
